@@ -85,7 +85,7 @@ def par_degrees(info):
 
 
 def scale_pars(info, pars, lam, mu, deg=None):
-    deg = deg or par_degrees(info)
+    deg = par_degrees(info) if deg is None else deg
     out = dict(pars)
     for k, v in pars.items():
         l, m = deg.get(k, (0, 0))
@@ -140,23 +140,6 @@ def expected_factor(obs, lam, mu, const_volume):
     return 1.0
 
 
-def defects(name, pars, lam, mu, const_volume, deg=None):
-    """Relative defect of every observable under the declared scaling."""
-    info = real_model(name).info
-    a = observe(name, pars)
-    b = observe(name, scale_pars(info, pars, lam, mu, deg), q=Q1D / lam, qxy=(QX / lam, QY / lam))
-    res = {}
-    for k in a:
-        want = expected_factor(k, lam, mu, const_volume) * a[k]
-        if not (np.all(np.isfinite(want)) and np.all(np.isfinite(b[k]))):
-            res[k] = float("nan")
-            continue
-        ref = np.max(np.abs(want))
-        res[k] = float(np.max(np.abs(b[k] - want)) / ref) if ref > 0 else \
-            (0.0 if np.max(np.abs(b[k])) == 0 else float("inf"))
-    return res, a, b
-
-
 def parameter_sets(info, seed, n=3):
     """Defaults plus *n* seeded sets: every non-zero default is multiplied by a
     factor in [0.6, 1.5]; zero defaults with declared length/fraction meaning
@@ -168,19 +151,18 @@ def parameter_sets(info, seed, n=3):
     sets = [("defaults", dict(base))]
     limits = {p.id: p.limits for p in info.parameters.call_parameters}
     ptype = {p.id: p.type for p in info.parameters.call_parameters}
-    control = {p.id for p in info.parameters.call_parameters if getattr(p, "is_control", False)}
     for i in range(n):
         rng = random.Random(zlib.crc32(("%s/%d/%d" % (info.id, seed, i)).encode()))
         s = dict(base)
         for k in sorted(base):
-            if k in ("scale", "background") or k in control:
+            if k in ("scale", "background"):
                 continue
             lo, hi = limits.get(k, (-math.inf, math.inf))
             v = base[k]
-            if v != 0:
-                if v == int(v) and ptype.get(k) == "" and abs(v) <= 20 and hi - lo < 1e3 \
-                        and k.startswith(("n", "num")):
-                    continue                       # counts stay
+            if v != 0 and v == int(v) and ptype.get(k) != "sld" and abs(v) <= 20 \
+                    and k.lower().startswith(("n", "num")):
+                v = v + (i + 1) % 3                # counts stay integral (default+1, +2, +0)
+            elif v != 0:
                 v = v * rng.uniform(0.6, 1.5)
             elif ptype.get(k) in ("volume", ""):
                 v = rng.uniform(0.15, 0.6)
@@ -291,3 +273,392 @@ class System:
         if "R_eff" in o:
             cl.append(("R_eff:(1,0)", z3.And(o["R_eff"].l == 1, o["R_eff"].m == 0)))
         return cl
+
+
+def _num(x):
+    f = x.as_fraction()
+    return int(f) if f.denominator == 1 else float(f)
+
+
+def analyse(S, u):
+    """Queries 1 and 2 plus the diagnosis of a failure.  Returns dict with
+    status typed|untypable|degrees, causes [(kind, name, text)], repaired
+    {param: (l, m)}, core [...]."""
+    T = S.T
+    T.sol.set("smt.core.minimize", True)
+    lits = list(S.unit_lits.values())
+    res = {"status": None, "causes": [], "repaired": {}, "core": [], "clauses": []}
+    exp = S.expected()
+    res["clauses"] = [n for n, _c in exp]
+
+    def timed(*a):
+        import time
+        t = time.time()
+        r = T.check(a)
+        u.r["solver_s"] += time.time() - t
+        u.r["solver_checks"] += 1
+        return r
+    u.r["obligations"] += 1
+    r1 = timed(*lits)
+    if r1 == "unknown":
+        u.r["unknown"] += 1
+        u.error("Query 1 (typing exists): solver returned unknown")
+        return res
+    if r1 == "sat":
+        u.r["discharged"] += 1
+        u.r["obligations"] += 1
+        T.sol.push()
+        T.sol.add(z3.Not(z3.And([c for _n, c in exp])))
+        r2 = timed(*lits)
+        bad = []
+        if r2 == "sat":
+            m = T.sol.model()
+            bad = [n for n, c in exp if not z3.is_true(m.eval(c, model_completion=True))]
+        T.sol.pop()
+        if r2 == "unknown":
+            u.r["unknown"] += 1
+            u.error("Query 2 (output degrees forced): solver returned unknown")
+            return res
+        if r2 == "unsat":
+            u.r["discharged"] += 1
+            res["status"] = "typed"
+            return res
+        res["status"] = "degrees"
+        res["causes"] = _degree_causes(S, lits, exp, timed) or \
+            [("degree", n.split(":")[0], n + " is violated by a typing") for n in bad] or \
+            [("degree", "unspecified", "some typing violates the expected output degrees")]
+        return res
+    # Query 1 unsat: unsat core, then minimal relabelling
+    res["status"] = "untypable"
+    res["core"] = T.core_reasons()
+    _relabel(S, res, exp)
+    return res
+
+
+def _degree_causes(S, lits, exp, timed, extra=()):
+    """Expected-degree clauses that some typing violates."""
+    T = S.T
+    out = []
+    for name, c in exp:
+        T.sol.push()
+        T.sol.add(z3.Not(c), *extra)
+        r = timed(*lits)
+        T.sol.pop()
+        if r != "sat":
+            continue
+        T.sol.push()
+        T.sol.add(c, *extra)
+        r_can = timed(*lits)
+        T.sol.pop()
+        out.append(("degree", name.split(":")[0],
+                    "%s %s" % (name, "cannot hold in any typing" if r_can == "unsat"
+                               else "is not forced (another typing exists)")))
+    return out
+
+
+W_UNIT, W_INSTR = 1, 3
+
+
+def _relabel(S, res, exp):
+    """Cheapest set of unit labels (weight 2) and instruction constraints
+    (weight 3) whose removal makes the system satisfiable (MaxSAT, z3
+    Optimize); then the expected-degree clauses under the repaired labels."""
+    T = S.T
+    names = list(S.unit_lits)
+    slot = dict(zip(names, S.slots))
+    opt = z3.Optimize()
+    opt.set("timeout", 120000)
+    for a in T.sol.assertions():
+        opt.add(a)
+    groups = {}          # one soft literal per SOURCE instruction (all inlined copies together)
+    for t, why in T.track.items():
+        head, _, ins = why.partition(": ")
+        groups.setdefault((head.split(">")[-1], ins), []).append(t)
+    glit = {}
+    for i, (key, ts) in enumerate(sorted(groups.items())):
+        g = glit[key] = z3.Bool("g%d" % i)
+        opt.add(z3.Implies(g, z3.And([z3.Bool(t) for t in ts])))
+        opt.add_soft(g, W_INSTR)
+    for n in names:
+        opt.add_soft(S.unit_lits[n], W_UNIT)
+    if str(opt.check()) != "sat":
+        res["causes"].append(("formula", "?", "no diagnosis (optimizer inconclusive)"))
+        return
+    m = opt.model()
+    dropped = [n for n in names if not z3.is_true(m.eval(S.unit_lits[n], model_completion=True))]
+    kept = [S.unit_lits[n] for n in names if n not in dropped]
+    off = [key for key, g in sorted(glit.items()) if not z3.is_true(m.eval(g, model_completion=True))]
+    fix = []
+    for n in dropped:
+        v = slot[n]
+        l, mm = m.eval(v.l, model_completion=True), m.eval(v.m, model_completion=True)
+        fix.append(z3.And(v.l == l, v.m == mm))
+        d = (_num(l), _num(mm))
+        res["repaired"][n] = d
+        res["causes"].append(("unit", n, "parameter %s is declared '%s' %s but the code uses it "
+                              "with degree %s" % (n, S.units[n]["units"],
+                                                  tuple(S.units[n]["degree"]), d)))
+    for fn, ins in off:
+        opname = ins.split(" = ")[-1].split(" ")[0]
+        if opname == "call":
+            opname = ins.split("call ")[1].split("(")[0]
+        res["causes"].append(("formula", "%s:%s" % (fn, opname),
+                              "operands of mixed degree in %s: %s" % (fn, ins)))
+    if off:
+        return          # degrees of a system with removed instructions are not meaningful
+    res["causes"] += _degree_causes(S, kept, exp, lambda *a: T.check(a), extra=fix)
+
+
+# ---------------------------------------------------------------------------
+# numeric witness search
+
+# Extra evaluation points suggested by the triage of unsat cores (a witness is
+# a witness wherever it is found; these only add places to look).
+DIRECTED = {
+    "triaxial_ellipsoid": [
+        {"pars": {"radius_equat_minor": 20.0, "radius_equat_major": 20.0, "radius_polar": 1.0}}],
+    "flexible_cylinder": [
+        {"pars": {"length": 2.0, "kuhn_length": 1.0, "radius": 0.5}, "q": [3.3, 3.7, 4.1]}],
+    "flexible_cylinder_elliptical": [
+        {"pars": {"length": 2.0, "kuhn_length": 1.0, "radius": 0.5}, "q": [3.3, 3.7, 4.1]}],
+}
+SCALINGS = tuple((lam, 1.0) for lam in LAMBDAS) + tuple((1.0, mu) for mu in LAMBDAS)
+
+
+def _defects_q(name, pars, lam, mu, const_volume, deg, q):
+    info = real_model(name).info
+    q = Q1D if q is None else np.asarray(q, dtype=float)
+    a = observe(name, pars, q=q)
+    if not np.any(a["I"] != 0):
+        raise ValueError("parameter set rejected by the model's validity test (I == 0)")
+    b = observe(name, scale_pars(info, pars, lam, mu, deg), q=q / lam, qxy=(QX / lam, QY / lam))
+    res = {}
+    for k in a:
+        want = expected_factor(k, lam, mu, const_volume) * a[k]
+        if not (np.all(np.isfinite(want)) and np.all(np.isfinite(b[k]))):
+            continue                      # point outside the model's domain
+        ref = np.max(np.abs(want))
+        res[k] = float(np.max(np.abs(b[k] - want)) / ref) if ref > 0 else \
+            (0.0 if np.max(np.abs(b[k])) == 0 else 1.0)
+    return res
+
+
+def witness_points(info, seed, nseeded):
+    pts = [{"tag": t, "pars": p, "q": None} for t, p in parameter_sets(info, seed, nseeded)]
+    base = pts[0]["pars"]
+    for f in (1e-2, 1e2):       # the defaults far from their usual scale (thresholds, series cut-offs)
+        pts.append({"tag": "defaults*%g^degree" % f, "pars": scale_pars(info, base, f, 1.0),
+                    "q": list(Q1D / f)})
+    for i, d in enumerate(DIRECTED.get(info.id, ())):
+        pts.append({"tag": "directed%d" % i, "pars": dict(base, **d["pars"]), "q": d.get("q")})
+    return pts
+
+
+def degree_maps(info, repaired):
+    """declared map, all-repaired map, and {param: declared-but-param-repaired map}."""
+    declared = par_degrees(info)
+    kmap = {}
+    for kp in info.parameters.kernel_parameters:
+        for k in range(1, kp.length + 1):
+            kmap[kp.id + str(k) if kp.length > 1 else kp.id] = kp.id
+    allrep, single = dict(declared), {n: dict(declared) for n in repaired}
+    for cid, kid in kmap.items():
+        if kid in repaired:
+            allrep[cid] = single[kid][cid] = tuple(repaired[kid])
+    return declared, allrep, single
+
+
+def judge(name, kind, pars, q, lam, mu, const_volume, deg_main, deg_alt):
+    """Decide one (cause, point): observables whose scaling relation fails.
+    unit cause: fails under the declared degrees (deg_main) and the defect
+    changes when only that parameter is relabelled (deg_alt);
+    other causes: fails under deg_main (= declared, after relabelling)."""
+    D = _defects_q(name, pars, lam, mu, const_volume, deg_main, q)
+    if kind == "unit":
+        Dp = _defects_q(name, pars, lam, mu, const_volume, deg_alt, q)
+        obs = [k for k in D if k in Dp and D[k] > TOL and abs(D[k] - Dp[k]) > TOL]
+    else:
+        obs = [k for k in D if D[k] > TOL]
+    return {k: D[k] for k in sorted(obs)}
+
+
+def find_witnesses(name, const_volume, causes, repaired, seed, nseeded):
+    """For each cause the first point where it is numerically confirmed."""
+    info = real_model(name).info
+    declared, allrep, single = degree_maps(info, repaired)
+    found, evals = {}, 0
+    for pt in witness_points(info, seed, nseeded):
+        for lam, mu in SCALINGS:
+            for i, (kind, cname, _text) in enumerate(causes):
+                if i in found:
+                    continue
+                main = declared if kind == "unit" else allrep
+                alt = single.get(cname) if kind == "unit" else None
+                try:
+                    fail = judge(name, kind, pt["pars"], pt["q"], lam, mu, const_volume, main, alt)
+                    evals += 1
+                except Exception:
+                    continue
+                if fail:
+                    k = max(fail, key=lambda o: fail[o])
+                    found[i] = {"model": name, "kind": kind, "point": pt["tag"], "pars": pt["pars"],
+                                "q": pt["q"], "lambda": lam, "mu": mu, "const_volume": const_volume,
+                                "observable": k, "defect": fail[k], "failing": fail,
+                                "degrees": {a: list(b) for a, b in main.items() if tuple(b) != (0, 0)},
+                                "degrees_alt": None if alt is None else
+                                {a: list(b) for a, b in alt.items() if tuple(b) != (0, 0)}}
+            if len(found) == len(causes):
+                return found, evals
+    return found, evals
+
+
+# ---------------------------------------------------------------------------
+# units
+
+VALIDATION_SCALINGS = ((1.7, 1.7), (0.5, 0.5))
+
+
+def unit(cfg):
+    name, seed, quick = cfg
+    u = Unit(name)
+    info = core.load_model_info(name)
+    rec = {"model": name, "status": None, "units": {}, "causes": [], "witnessed": [],
+           "undecided": [], "values": 0, "constraints": 0}
+    u.r["c13"] = rec
+    try:
+        S = System(info)
+    except irparse.Unsupported as e:
+        rec["status"] = "not encoded"
+        u.r["not_encoded"].append("%s: %s" % (name, e))
+        return u.r
+    T = S.T
+    rec.update(units=S.units, values=T.nvals, constraints=T.nconstr, leaves=S.leaves,
+               inlined=T.inlined, instructions=T.instrs, zero_edge_exemptions=T.exempted,
+               externals=sorted(T.externals), const_volume=S.const_volume)
+    u.functions("%s [generated C]: %s" % (name, ", ".join(sorted(T.callees))))
+    u.r["paths"] = T.inlined
+    res = analyse(S, u)
+    rec["status"], rec["core"] = res["status"], res["core"][:12]
+    rec["repaired"] = {k: list(v) for k, v in res["repaired"].items()}
+    u.sample({"model": name, "units": {k: v["units"] for k, v in S.units.items()},
+              "leaves": S.leaves, "status": res["status"], "constraints": T.nconstr})
+    nseeded = 3
+    if res["status"] is None:
+        return u.r
+    if res["status"] == "typed":
+        u.r["vacuity_ok"] += 1              # Query 1 sat: the hypotheses are satisfiable
+        # translator validation: the proved relation must hold on the real DLL
+        deg = par_degrees(info)
+        for tag, pars in parameter_sets(info, seed, 1 if quick else 3):
+            for lam, mu in VALIDATION_SCALINGS:
+                try:
+                    fail = judge(name, "numeric", pars, None, lam, mu, S.const_volume, deg, None)
+                except Exception as e:
+                    u.note("validation of %s at %s skipped: %r" % (name, tag, e))
+                    continue
+                if not fail:
+                    u.r["validated"] += 1
+                    continue
+                k = max(fail, key=lambda o: fail[o])
+                w = {"model": name, "kind": "numeric", "point": tag, "pars": pars, "q": None,
+                     "lambda": lam, "mu": mu, "const_volume": S.const_volume, "observable": k,
+                     "defect": fail[k], "failing": fail,
+                     "degrees": {a: list(b) for a, b in deg.items() if tuple(b) != (0, 0)},
+                     "degrees_alt": None}
+                u.r["cex"].append({"obligation": "numeric relation of a typed model",
+                                   "key": "C13/%s/numeric:%s" % (name, k), "reproduced": True,
+                                   "what": "%s types under its declared units but %s fails the scaling "
+                                           "relation by %.3g at %s, lambda=%g mu=%g"
+                                           % (name, k, fail[k], tag, lam, mu), "inputs": w})
+                return u.r
+        return u.r
+    causes = list(res["causes"])
+    if causes and all(c[0] == "unit" for c in causes):
+        causes.append(("residual", "after-relabel", "scaling relation fails even with the repaired labels"))
+    rec["causes"] = [list(c) for c in res["causes"]]
+    found, evals = find_witnesses(name, S.const_volume, causes, res["repaired"], seed, nseeded)
+    rec["witness_evaluations"] = evals
+    for i, (kind, cname, text) in enumerate(causes):
+        key = "C13/%s/%s:%s" % (name, kind, cname.split(":")[0] if kind == "formula" else cname)
+        if i in found:
+            w = found[i]
+            rec["witnessed"].append(key)
+            u.r["cex"].append({
+                "obligation": "Query 1 (typing exists)" if res["status"] == "untypable"
+                else "Query 2 (output degrees forced)",
+                "key": key, "reproduced": True, "inputs": w,
+                "what": "%s; numeric witness: %s off by %.3g under lambda=%g mu=%g at %s %s"
+                        % (text, w["observable"], w["defect"], w["lambda"], w["mu"], w["point"],
+                           {k: w["pars"][k] for k in sorted(w["pars"]) if k not in ("scale", "background")})})
+        elif kind != "residual":
+            rec["undecided"].append([key, text])
+            u.note("UNDECIDED %s: %s (typing fails, no numeric witness in %d evaluations)"
+                   % (key, text[:300], evals))
+    return u.r
+
+
+def run(chk):
+    claimed, outside = select_models()
+    if getattr(chk, "only", None):
+        claimed = [n for n in claimed if chk.only in n]
+    chk.explanation = (
+        "Homogeneity-degree typing of the LLVM IR regenerated from each model's real generated C "
+        "source (generate.make_source + convert_type, clang -O0, mem2reg): every SSA value gets "
+        "rational unknowns (l, m); instruction rules (vlib/hdeg.py docstring) make any solution a "
+        "scaling certificate: by induction over executed instructions, in real arithmetic, scaling "
+        "each input x by lambda^l(x) mu^m(x) (lambda, mu > 0) scales each value v by lambda^l(v) "
+        "mu^m(v); fcmp requires equal degrees on both sides (a literal 0 is exempt, a non-zero "
+        "literal threshold forces degree 0 on the other side; nothing else is exempted), so every "
+        "branch and loop count is invariant.  Leaf-function arguments are bound to ParameterTable "
+        "slots as the real dispatch code (<id>_Iq/_Iqxy) binds them, slots carry the DECLARED unit "
+        "degree, q is (-1,0).  z3 (QF_LRA) decides Query 1 (typing exists) and Query 2 (system and "
+        "not(expected output degrees) unsat).  A failed query is diagnosed by unsat core and MaxSAT "
+        "(cheapest labels/instructions to drop) and confirmed or not by the numeric relation on the "
+        "compiled DLL; typed models are additionally validated numerically.")
+    chk.bounds = {"models_claimed": len(claimed), "lambda_mu_witness": list(LAMBDAS),
+                  "witness_tolerance": TOL, "seeded_parameter_sets": 3,
+                  "typing": "all q and all parameter values (symbolic degrees, no data bound)",
+                  "unit_table": {str(k): list(v) for k, v in UNITS.items()}}
+    chk.outside = ["outside the claim: " + o for o in outside] + [
+        "magnetic kernels (<id>_Imagnetic) and magnetic SLD parameters",
+        "the dispersity loop and Python driver (linear in the leaf outputs; C01), covered here only "
+        "by the numeric validation at sample points",
+        "floating-point rounding (doubles read as reals)"]
+    chk.stubs = ["libm functions by rule table (vlib.hdeg.DIMLESS/SAME1/ALLEQ, sqrt, cbrt, pow, atan2); "
+                 "all sasmodels library helpers are typed from their real bodies"]
+    chk.assumptions = ["lambda > 0, mu > 0",
+                       "all elements of one C array share one degree; one degree per struct field",
+                       "a value compared (==, !=) with literal 0 is exactly 0 on the equal edge"]
+    chk.trusted = ["z3 %s (QF_LRA, Optimize for diagnosis only)" % z3.get_version_string(),
+                   "clang-14 -O0 + opt -mem2reg -simplifycfg -instsimplify", "vlib.llsym.irparse",
+                   "real-arithmetic model of doubles"]
+    results = pmap(unit, [(n, chk.seed, chk.quick) for n in claimed])
+    chk.add(results)
+    recs = [r.get("c13", {}) for r in results]
+    chk.extra["c13"] = {
+        "models_typed": sorted(r["model"] for r in recs if r.get("status") == "typed"),
+        "models_not_typed": {r["model"]: {"status": r["status"], "causes": r.get("causes"),
+                                          "unsat_core": r.get("core"), "witnessed": r.get("witnessed")}
+                             for r in recs if r.get("status") in ("untypable", "degrees")},
+        "models_undecided_excluded_from_claim": {r["model"]: r["undecided"] for r in recs if r.get("undecided")},
+        "models_not_encoded": sorted(r["model"] for r in recs if r.get("status") == "not encoded"),
+        "constraints_total": sum(r.get("constraints", 0) for r in recs),
+        "values_total": sum(r.get("values", 0) for r in recs),
+        "instructions_total": sum(r.get("instructions", 0) for r in recs),
+        "unsat_cores": sum(1 for r in recs if r.get("core")),
+        "numeric_witnesses": sum(len(r.get("witnessed", ())) for r in recs),
+        "units_per_model": {r["model"]: {k: v["units"] for k, v in r.get("units", {}).items()} for r in recs},
+        "libm_rule_table": {"degree0_in_degree0_out": sorted(hdeg.DIMLESS), "same": sorted(hdeg.SAME1),
+                            "all_equal": sorted(hdeg.ALLEQ)},
+    }
+
+
+def replay(cex):
+    w = cex["inputs"]
+    name = w["model"]
+    deg = {k: tuple(v) for k, v in w["degrees"].items()}
+    alt = None if w.get("degrees_alt") is None else {k: tuple(v) for k, v in w["degrees_alt"].items()}
+    fail = judge(name, w["kind"], w["pars"], w["q"], w["lambda"], w["mu"], w["const_volume"], deg, alt)
+    print("replay %s: %s at lambda=%g mu=%g -> failing observables %s"
+          % (cex.get("key"), name, w["lambda"], w["mu"], fail))
+    return 1 if fail else 0
